@@ -24,16 +24,31 @@ pub fn sound_elf32_le() {
 }
 #[kani::proof]
 #[kani::unwind(8)]
-pub fn complete_elf32_nb2_n3() {
-    sysv_complete::<2, 3>(Class::ELF32);
+pub fn complete_elf32_nb2_n3_present() {
+    sysv_complete::<2, 3>(Class::ELF32, false);
 }
 #[kani::proof]
 #[kani::unwind(8)]
-pub fn complete_elf64_nb3_n3() {
-    sysv_complete::<3, 3>(Class::ELF64);
+pub fn complete_elf32_nb2_n3_absent() {
+    sysv_complete::<2, 3>(Class::ELF32, true);
 }
 #[kani::proof]
 #[kani::unwind(8)]
-pub fn complete_elf64_nb1_n3() {
-    sysv_complete::<1, 3>(Class::ELF64);
+pub fn complete_elf64_nb3_n3_present() {
+    sysv_complete::<3, 3>(Class::ELF64, false);
+}
+#[kani::proof]
+#[kani::unwind(8)]
+pub fn complete_elf64_nb3_n3_absent() {
+    sysv_complete::<3, 3>(Class::ELF64, true);
+}
+#[kani::proof]
+#[kani::unwind(8)]
+pub fn complete_elf64_nb1_n3_present() {
+    sysv_complete::<1, 3>(Class::ELF64, false);
+}
+#[kani::proof]
+#[kani::unwind(8)]
+pub fn complete_elf64_nb1_n3_absent() {
+    sysv_complete::<1, 3>(Class::ELF64, true);
 }
